@@ -45,6 +45,8 @@ a_kinds! {
     HandleClone, HandleDrop, Yield, Shutdown,
     // Blocking consumers (exercise wake-ups of event streams).
     EventWaiter, ListenerWaiter, DiscWaiter,
+    // Deterministic rounds with exact expectations (C04 / C10 at API level).
+    EventRound, ListenerRound,
 }
 
 #[derive(Debug, Clone, Copy, PartialEq, Eq)]
@@ -90,6 +92,8 @@ pub struct Board {
     pub bound: std::collections::BTreeSet<(u64, bool)>,
     /// Per call id: (set once the caller has dropped its PendingReply, caller's protocol minor).
     pub call_abort_flags: BTreeMap<u64, (Rc<Cell<bool>>, u32)>,
+    /// Command queues of all server tasks (any client may ask a server to emit).
+    pub service_cmds: Vec<(ServiceId, mpsc::UnboundedSender<SvcCmd>)>,
 }
 
 pub type SharedBoard = Rc<RefCell<Board>>;
@@ -135,6 +139,8 @@ impl Log {
 
 pub enum SvcCmd {
     Emit(u32, u64),
+    /// Emit the events, then `sync_broker`, then report whether everything succeeded.
+    EmitSync(Vec<(u32, u64)>, futures_channel::oneshot::Sender<bool>),
     Destroy,
     Drop,
 }
@@ -329,7 +335,7 @@ impl Ctx {
         self.res.borrow().handle.clone()
     }
 
-    fn unique(&self) -> u64 {
+    pub fn unique(&self) -> u64 {
         let mut bb = self.bb.borrow_mut();
         bb.next_unique += 1;
         ((self.client as u64) << 40) | bb.next_unique
@@ -421,6 +427,18 @@ async fn server_task(ctx: Ctx, mut svc: Service, mut cmd: mpsc::UnboundedReceive
                 if let Err(e) = svc.emit(event, vec![unique, event as u64]) {
                     ctx.check_err("Service::emit", &e);
                 }
+            }
+            Ev::Cmd(Some(SvcCmd::EmitSync(events, done))) => {
+                // The owner's client only forwards events it believes somebody is subscribed to; that
+                // belief is updated by notifications from the broker. Wait until every notification
+                // caused by the subscriptions made before this command has arrived.
+                let h = svc.client().clone();
+                let mut ok = blocked(&info, "Handle::sync_broker", true, h.sync_broker()).await.is_ok();
+                for (event, unique) in events {
+                    ok &= svc.emit(event, vec![unique, event as u64]).is_ok();
+                }
+                ok &= blocked(&info, "Handle::sync_broker", true, h.sync_broker()).await.is_ok();
+                let _ = done.send(ok && !gone.get());
             }
             Ev::Cmd(Some(SvcCmd::Destroy)) => {
                 gone.set(true);
@@ -643,8 +661,9 @@ async fn run_op(ctx: &Ctx, op: AOp, info: &Rc<TaskInfo>) {
                     Ok(svc) => {
                         let id = svc.id();
                         let (tx, rx) = mpsc::unbounded();
-                        ctx.res.borrow_mut().services.push(SvcCtl { id, cmd: tx });
+                        ctx.res.borrow_mut().services.push(SvcCtl { id, cmd: tx.clone() });
                         ctx.bb.borrow_mut().services.push(id);
+                        ctx.bb.borrow_mut().service_cmds.push((id, tx));
                         let c2 = ctx.clone();
                         let name = format!("client{}-server", ctx.client);
                         let holder: Rc<RefCell<Option<Rc<TaskInfo>>>> = Rc::new(RefCell::new(None));
